@@ -45,6 +45,9 @@ type Result struct {
 	Compiled   bool
 	CompileErr string
 	Ran        bool
+	TaggedTrace      []string // trace of the same driver built with -tags wireinject (original declarations)
+	TaggedCompileErr string
+	TaggedRan        bool
 	CheckRan   bool     // wire check was run on the same tree
 	CheckDiags []string // diagnostics of wire check attributed to this case (normalised)
 	ShowOut    string   // stdout of wire show for this case's packages (normalised)
@@ -105,6 +108,7 @@ type Runner struct {
 	Workers    int
 	GenTimeout time.Duration
 	SoloTimeout time.Duration
+	AlsoTagged  bool // additionally build and run the drivers with -tags wireinject (the templates instead of wire_gen.go)
 	AlsoCheck   bool // additionally run `wire check ./...` on the same tree
 	AlsoShow    bool // additionally run `wire show ./...` on the same tree
 	ExtraGen   []string // extra args for wire gen (before patterns)
@@ -749,6 +753,94 @@ func (rn *Runner) compileAndRun(mod string, results []*Result) {
 	}
 	if res.Exit != 0 {
 		rn.internalf("driver binary exited %d: %s", res.Exit, tail(res.Stderr, 2000))
+	}
+	if rn.AlsoTagged {
+		rn.taggedRun(mod, env, want)
+	}
+}
+
+// taggedRun builds the same drivers with -tags wireinject (the injector templates and the original
+// declarations instead of wire_gen.go) and records their traces.
+func (rn *Runner) taggedRun(mod string, env []string, want []*Result) {
+	bin := filepath.Join(mod, "zbin-tagged")
+	for attempt := 0; attempt < 8 && len(want) > 0; attempt++ {
+		var sb strings.Builder
+		sb.WriteString("package main\n\nimport (\n")
+		for _, r := range want {
+			if r.Case.Drive {
+				fmt.Fprintf(&sb, "\t%s %q\n", r.Case.Dir, ModPath+"/"+r.Case.Dir)
+			}
+		}
+		sb.WriteString(")\n\nfunc run(name string, f func()) {\n\tdefer func() {\n\t\tif r := recover(); r != nil {\n\t\t\tprintln(\"V|PANIC\", name)\n\t\t}\n\t}()\n\tf()\n}\n\nfunc main() {\n")
+		for _, r := range want {
+			if r.Case.Drive {
+				fmt.Fprintf(&sb, "\trun(%q, %s.VerifDrive)\n", r.Case.Dir, r.Case.Dir)
+			}
+		}
+		sb.WriteString("}\n")
+		WriteFiles(mod, map[string]string{"zmain/main.go": sb.String()})
+		res := Run(mod, env, 600*time.Second, "go", "build", "-tags", "wireinject", "-o", bin, "./zmain")
+		if res.Exit == 0 {
+			break
+		}
+		out := res.Stderr + res.Stdout
+		idx := reHdr.FindAllStringSubmatchIndex(out, -1)
+		failed := map[string]string{}
+		for i, m := range idx {
+			path := out[m[2]:m[3]]
+			end := len(out)
+			if i+1 < len(idx) {
+				end = idx[i+1][0]
+			}
+			if dir, _, ok := caseOfPath(path); ok {
+				failed[dir] += strings.ReplaceAll(out[m[0]:end], mod+"/", "")
+			}
+		}
+		if len(failed) == 0 {
+			rn.internalf("tagged go build failed without attributable package: %s", out)
+			return
+		}
+		var next []*Result
+		for _, r := range want {
+			if msg, bad := failed[r.Case.Dir]; bad {
+				r.TaggedCompileErr = msg
+			} else {
+				next = append(next, r)
+			}
+		}
+		want = next
+		os.Remove(bin)
+	}
+	if len(want) == 0 {
+		return
+	}
+	res := RunLimited(mod, env, 300*time.Second, WireMemKB, bin)
+	byDir := map[string]*Result{}
+	for _, r := range want {
+		byDir[r.Case.Dir] = r
+	}
+	var cur *Result
+	for _, line := range strings.Split(res.Stderr, "\n") {
+		if !strings.HasPrefix(line, "V|") {
+			continue
+		}
+		line = line[2:]
+		if strings.HasPrefix(line, "CASE ") {
+			cur = byDir[strings.TrimPrefix(line, "CASE ")]
+			if cur != nil {
+				cur.TaggedRan = true
+			}
+			continue
+		}
+		if strings.HasPrefix(line, "PANIC ") {
+			if r := byDir[strings.TrimPrefix(line, "PANIC ")]; r != nil {
+				r.TaggedTrace = append(r.TaggedTrace, "PANIC")
+			}
+			continue
+		}
+		if cur != nil {
+			cur.TaggedTrace = append(cur.TaggedTrace, line)
+		}
 	}
 }
 
